@@ -77,6 +77,37 @@ def helpers(idx):
 EMBEDDINGS = ["playground", "evalenv", "runtest"]
 
 
+# the third embedding the statement names: requests handled by ONE server.  A request's response must be the response a newly started
+# server gives to that request alone, whatever the same server (the same handler objects) has answered before.
+SERVER_SCRIPT = """http := import("http")
+stop := http.S.serve(
+  http.S.get("/plain", {|req| "A"}),
+  http.S.get("/notfound", {|req| http.Response.new(status: 404, body: "no")}),
+  http.S.get("/item", {|req| http.Response.new(status: 404, body: "none") if req.queries.keys.has?("missing") else "found"}),
+  http.S.get("/hdr", {|req| http.Response.new(body: "h", headers: {"X-K": "v"}) if req.queries.keys.has?("set") else "plain h"}),
+  http.S.post("/json", {|req| JSON.dec(req.body).keys.S}),
+  http.S.get("/err", {|req| 1 / 0}),
+  http.S.get("/def", {|req| leak := 5; counter := leak + 1; counter.S}),
+  http.S.get("/use", {|req| [nil.try.{|u| leak}.err.type._name, nil.try.{|u| counter}.err.type._name].S}),
+  http.S.get("/env", {|req| "x := 1; y := 2".evalEnv.keys.S}),
+  http.S.get("/created", {|req| http.Response.new(status: 201, body: "made", headers: {"X-Made": "1"})}),
+  http.S.get("/trace", {|req| nil.try.{|u| {|n| n.nosuchprop}(1)}.err.S}),
+  background: true, url: ":@PORT@")
+"""
+SERVER_REQS = [("GET", "/plain", ""), ("GET", "/notfound", ""), ("GET", "/item", ""), ("GET", "/item?missing=1", ""), ("GET", "/hdr", ""), ("GET", "/hdr?set=1", ""),
+               ("POST", "/json", '{"b": 1, "a": 2}'), ("GET", "/err", ""), ("GET", "/def", ""), ("GET", "/use", ""), ("GET", "/env", ""), ("GET", "/created", ""), ("GET", "/trace", ""),
+               ("GET", "/nosuchroute", "")]
+
+
+def server_session(idx):
+    reqs = [{"method": SERVER_REQS[i][0], "path": SERVER_REQS[i][1], "headers": {}, "body": SERVER_REQS[i][2]} for i in idx]
+    resp = pvlib.run_plain_driver({"n": 1, "progs": [], "rounds": [], "http": {"script": SERVER_SCRIPT, "requests": reqs, "main": [], "pre": "", "clients": 1}})
+    h = resp.get("http") or {}
+    if resp.get("end") != "ok" or not str(h.get("start", "")).startswith("val:") or not isinstance(h.get("conc"), list) or len(h["conc"]) != len(idx):
+        raise pvlib.Broken(f"server session {idx} did not run: {str(resp)[:300]}")
+    return h["conc"]
+
+
 def norm(emb, o):
     o = re.sub(r"<dir>/t\d\d/", "<dir>/tNN/", o)
     if emb == "runtest":
@@ -167,6 +198,31 @@ def run():
             k = v["shared"] - 2
             ck.reject(f"C19:{emb}:shared-state-changed-by={idx[k] + 1 if k >= 0 else '?'}", f"under {emb}, program {progs[k]!r} changed the interpreter-wide state projection",
                       {"embedding": emb, "program": progs[k], "history": progs[:k]})
+    # ---- server embedding
+    from concurrent.futures import ThreadPoolExecutor
+    nreq = len(SERVER_REQS)
+    ssessions = [[i] for i in range(nreq)] + [[i, j] for i in range(nreq) for j in range(nreq)]
+    ssessions += [[ck.rng.randrange(nreq) for _ in range(3)] for _ in range(400 if thorough else 60)]
+    pvlib.build_plain_driver()
+    with ThreadPoolExecutor(max_workers=8) as ex:
+        sobs = list(ex.map(server_session, ssessions))
+    sfresh = {i: sobs[i][0] for i in range(nreq)}
+    srows = [{"id": f"srv{k}", "obs": [hh(x) for x in ob], "fresh": [hh(sfresh[i]) for i in idx], "shared": ["-"]} for k, (idx, ob) in enumerate(zip(ssessions, sobs))]
+    t2 = run_tlc("Trace_C19", files={"c19.ndjson": ndjson(srows)}, timeout_s=900)
+    ck.add_tlc(t2, "Trace_C19 server sessions")
+    vs2 = payloads(t2, "V ")
+    if len(vs2) != len(srows):
+        raise pvlib.Broken("Trace_C19 verdict count mismatch (server sessions)")
+    for v in vs2:
+        k = int(v["id"][3:])
+        idx, ob = ssessions[k], sobs[k]
+        if v["obs"]:
+            j = v["obs"] - 1
+            name = lambda i: f"{SERVER_REQS[i][0]} {SERVER_REQS[i][1]}"
+            ck.reject(f"C19:server:request={SERVER_REQS[idx[j]][1].split('?')[0]}:after={'+'.join(sorted({SERVER_REQS[i][1].split('?')[0] for i in idx[:j]}))}",
+                      f"one server, after {[name(i) for i in idx[:j]]} the request {name(idx[j])} is answered {ob[j]!r}; a newly started server answers {sfresh[idx[j]]!r}",
+                      {"embedding": "server", "history": [name(i) for i in idx[:j]], "request": name(idx[j]), "observed": ob[j], "fresh": sfresh[idx[j]], "script": SERVER_SCRIPT})
+    ck.cov["server_sessions"] = len(ssessions)
     ck.sample({"embedding": "playground", "session": [POOL[p - 1] for p in sessions[3]], "fresh_probe_obs": fresh[("playground", sessions[3][-1] - 1)]})
     ck.cov["evaluations"] = sum(len(m[1]) for m in meta.values())
     ck.cov["distinct_nontrivial"] = nontrivial
@@ -174,6 +230,7 @@ def run():
     ck.cov["exhaustive"] = False
     ck.cov["rule"] = (f"pool of {n} programs (define variables, read names other programs define, raise the shared `_`, fail with 6 error kinds incl. syntax errors, "
                       "shadow built-in names, evalEnv, exhaust built-in iterators, leave StopIterErr uncaught, pass keywords only through **, touch Either, read stdin, import a module ./helper of their own directory, use Str descendants as map keys and inspect the key objects of evalEnv / import results); "
+                      "server embedding: 14 requests to one server with 11 handlers (plain / status / headers / JSON / raising / locals / evalEnv), every pair and seeded triples, each response against a newly started server's; "
                       "sessions = all (history, probe) pairs and (quick: 900 / thorough: 40000 seeded) two-program histories + probe, under playground, Str#evalEnv "
                       "and the real `pangaea test` driver; non-trivial = sessions of distinct programs")
     ck.assumptions = ["web/wasm/executor.go needs GOOS=js: its execute body (one constant scope, NewEnclosedEnv per run, IO re-injected) is reproduced in the worker",
